@@ -103,6 +103,10 @@ var fedShapes = []fedShape{
 		multi:   "BetaByIDs",
 		batchID: func(i int) string { return "!bad" },
 	},
+	{ // 21 batch type without any key: it fails on its own and is not handed to the batch resolver; the rest of the batch is served
+		rep:  func(i int) map[string]any { return map[string]any{"__typename": "Beta"} },
+		want: func(i int) string { return "null" },
+	},
 	{ // 12 compound key, both fields set
 		rep: func(i int) map[string]any {
 			return map[string]any{"__typename": "Epsilon", "sku": "s" + sfx(i), "variant": "v" + sfx(i)}
@@ -223,7 +227,7 @@ func Harness_C20_entities() {
 		}
 		if zzsym.Param("failing", 0) == 1 {
 			// shapes that fail without any fault: several failing representations of one type in one request
-			shapes[i] = []int{8, 0, 6}[shapes[i]%3]
+			shapes[i] = []int{8, 0, 6, 11, 2}[shapes[i]%5]
 		}
 		ix[i] = i
 		if i == n-1 && i > 0 && zzsym.Choice("dup", 2) == 1 {
